@@ -31,6 +31,19 @@ def outer(x, y, z):
 RES = outer(V[I0], V[I1], V[I2])
 '''
 HIT_LINE = 6
+SRC_ME = SRC.replace("    e = {'a': a, 'd': d}\n", "    e = {'a': a, 'd': d}\n    me = locals()\n")
+HIT_LINE_ME = 7
+SRC_RET = SRC.replace("    return d\n", "    return DONE(d)\n")
+SRC_ME_RET = SRC_ME.replace("    return d\n", "    return DONE(d)\n")
+_codes = {}
+
+
+def code_for(me, ret):
+    key = (me, ret)
+    if key not in _codes:
+        src = {(False, False): SRC, (True, False): SRC_ME, (False, True): SRC_RET, (True, True): SRC_ME_RET}[key]
+        _codes[key] = compile(src, PATH, 'exec')
+    return _codes[key]
 WATCHES = ['locals()', 'globals()', 'a', 'd', 'd[0]', '[a]', 'g', 'e["d"]', 'G2', 'b']
 _code = compile(SRC, PATH, 'exec')
 
@@ -130,7 +143,7 @@ class C07(Prop):
     quick_examples = 1000
     thorough_examples = 5000
     floors = {'budget_cut': 0.1, 'watch_on_framed_value': 0.3, 'log_before_snapshot': 0.05, 'all_frame': 0.2,
-              'two_snapshots': 0.15}
+              'two_snapshots': 0.15, 'frame_holds_its_own_locals': 0.3, 'deferred_capture': 0.3}
 
     def strategy(self, tier):
         big = tier == 'thorough'
@@ -142,6 +155,8 @@ class C07(Prop):
             'actions': st.lists(st.sampled_from(['snapshot', 'log', 'snapshot', 'snapshot+log']), min_size=1, max_size=3),
             'frame_type': st.sampled_from(['single_frame', 'all_frame', 'all_frame']),
             'max_variables': st.one_of(st.just(1000), st.integers(1, 14)),
+            'me': st.booleans(),
+            'capture': st.booleans(),
         })
 
     def run_case(self, recipe):
@@ -152,6 +167,12 @@ class C07(Prop):
         i0, i1, i2 = [i % n for i in recipe['idx']]
         actions = []
         n_snap = 0
+        me = bool(recipe.get('me'))
+        capture = bool(recipe.get('capture'))
+        if me:
+            out.cls('frame_holds_its_own_locals')
+        if capture:
+            out.cls('deferred_capture')
         for i, a in enumerate(recipe['actions']):
             cfg = {'fire_count': '-1', 'fire_period': '0', 'frame_type': recipe['frame_type']}
             if recipe['max_variables'] < 1000:
@@ -163,9 +184,11 @@ class C07(Prop):
                 cfg['watches'] = list(recipe['watches'])
                 if a == 'snapshot+log':
                     cfg['log_msg'] = 'a={a} e={e}'
+                if capture:
+                    cfg['stage'] = 'line_capture'      # deferred: completed (and the returned value captured) later
                 actions.append(LocationAction('tp%d' % i, None, cfg, LocationAction.ActionType.Snapshot))
                 n_snap += 1
-        trig = Trigger(LineLocation('c07_mod.py', HIT_LINE, Location.Position.START), actions)
+        trig = Trigger(LineLocation('c07_mod.py', HIT_LINE_ME if me else HIT_LINE, Location.Position.START), actions)
         handler, _, push = lab.make_handler([trig], plugins=[lab.RecLogger()])
         readings = []
 
@@ -182,9 +205,16 @@ class C07(Prop):
             except BaseException as e:      # noqa
                 out.violate('trace_call raised %s' % lab.exc_bucket(e))
 
-        ns = {'V': vals, 'I0': i0, 'I1': i1, 'I2': i2, 'HIT': HIT, '__name__': 'c07_mod'}
+        def DONE(v):
+            try:
+                handler.trace_call(sys._getframe(1), 'return', v)
+            except BaseException as e:      # noqa
+                out.violate('trace_call raised %s' % lab.exc_bucket(e))
+            return v
+
+        ns = {'V': vals, 'I0': i0, 'I1': i1, 'I2': i2, 'HIT': HIT, 'DONE': DONE, '__name__': 'c07_mod'}
         import threading
-        t = threading.Thread(target=exec, args=(_code, ns), name='c07-prog')   # small, engine-free stack below
+        t = threading.Thread(target=exec, args=(code_for(me, capture), ns), name='c07-prog')   # small, engine-free stack below
         t.start()
         t.join()
         if not readings:
@@ -237,6 +267,10 @@ class C07(Prop):
                     roots.append((w.result, top['d'][0]))
                 if w.source == 'WATCH' and w.result is not None and w.expression == 'e["d"]':
                     roots.append((w.result, top['e']['d']))
+                if w.source == 'CAPTURE' and w.result is not None:
+                    roots.append((w.result, top['d']))
+            if capture and not any(w.source == 'CAPTURE' for w in snap.watches):
+                out.violate('deferred snapshot delivered without the captured return value')
             pairs = joint_walk(snap, roots)
             obj_to_vid = {}
             vid_to_obj = {}
